@@ -1383,6 +1383,9 @@ bool nthroot_mod(const Ptr<RCP<const Integer>> &root,
     prime_factor_multiplicities(prime_mul, *mod);
     std::vector<RCP<const Integer>> moduli;
     bool ret_val;
+    // the prime power routines expect the residue 0 <= a < mod
+    integer_class _a;
+    mp_fdiv_r(_a, a->as_integer_class(), mod->as_integer_class());
 
     std::vector<RCP<const Integer>> rem;
     for (const auto &it : prime_mul) {
@@ -1390,8 +1393,8 @@ bool nthroot_mod(const Ptr<RCP<const Integer>> &root,
         mp_pow_ui(_mod, it.first->as_integer_class(), it.second);
         moduli.push_back(integer(std::move(_mod)));
         ret_val = _nthroot_mod_prime_power(
-            rem, a->as_integer_class(), n->as_integer_class(),
-            it.first->as_integer_class(), it.second, false);
+            rem, _a, n->as_integer_class(), it.first->as_integer_class(),
+            it.second, false);
         if (not ret_val)
             return false;
     }
@@ -1413,6 +1416,9 @@ void nthroot_mod_list(std::vector<RCP<const Integer>> &roots,
     prime_factor_multiplicities(prime_mul, *m);
     std::vector<RCP<const Integer>> moduli;
     bool ret_val;
+    // the prime power routines expect the residue 0 <= a < m
+    integer_class _a;
+    mp_fdiv_r(_a, a->as_integer_class(), m->as_integer_class());
 
     std::vector<std::vector<RCP<const Integer>>> rem;
     for (const auto &it : prime_mul) {
@@ -1421,8 +1427,8 @@ void nthroot_mod_list(std::vector<RCP<const Integer>> &roots,
         moduli.push_back(integer(std::move(_mod)));
         std::vector<RCP<const Integer>> rem1;
         ret_val = _nthroot_mod_prime_power(
-            rem1, a->as_integer_class(), n->as_integer_class(),
-            it.first->as_integer_class(), it.second, true);
+            rem1, _a, n->as_integer_class(), it.first->as_integer_class(),
+            it.second, true);
         if (not ret_val)
             return;
         rem.push_back(rem1);
@@ -1591,11 +1597,14 @@ i.e a % mod in set([i**n % mod for i in range(mod)]).
     map_integer_uint prime_mul;
     prime_factor_multiplicities(prime_mul, *mod2);
     bool ret_val;
+    // the prime power routine expects the residue 0 <= a < mod
+    integer_class _a;
+    mp_fdiv_r(_a, a.as_integer_class(), _mod);
 
     for (const auto &it : prime_mul) {
         ret_val = _is_nthroot_mod_prime_power(
-            a.as_integer_class(), n.as_integer_class(),
-            it.first->as_integer_class(), it.second);
+            _a, n.as_integer_class(), it.first->as_integer_class(),
+            it.second);
         if (not ret_val)
             return false;
     }
